@@ -425,6 +425,16 @@ fn load_act(r: u32, ks: &[u32]) -> Sexp {
     node("load", v)
 }
 
+/// The generators drive the real executor to learn which actions are enabled; a panic of the
+/// library there must not take the whole harness down (it would only be reported as a broken
+/// tie without a failing input).
+fn apply_guarded(ex: &mut Exec, a: &Sexp) -> bool {
+    std::panic::catch_unwind(std::panic::AssertUnwindSafe(|| {
+        ex.apply(a);
+    }))
+    .is_ok()
+}
+
 /// All complete schedules for the given requests (issued in order) under one configuration:
 /// depth-first over the actions the *real* executor state enables (next load / first poll of a
 /// spawned task / timer / loader answer), replaying the prefix on a fresh DataLoader each time.
@@ -436,7 +446,12 @@ fn enumerate(hdr: &[Sexp], pre: &[Sexp], reqs: &[Vec<u32>], with_err: bool, cap:
         let case = mk_case(hdr, acts.clone());
         let mut ex = exec_of(&case);
         for a in acts.iter() {
-            ex.apply(a);
+            if !apply_guarded(&mut ex, a) {
+                // the real loader panicked while the schedule was being explored: hand the
+                // schedule out as a case, `run` reports the panic and the judge names it
+                out.push(case);
+                return;
+            }
         }
         let mut next: Vec<(Sexp, usize)> = vec![];
         if issued < reqs.len() {
@@ -661,7 +676,12 @@ fn random_case(rng: &mut Rng, d: &mut Dist, big: bool) -> Sexp {
                 _ => node("cancel", vec![num(i)]),
             }
         };
-        ex.apply(&a);
+        if !apply_guarded(&mut ex, &a) {
+            // see `enumerate`: a panic of the real code during generation ends the case here
+            d.hit("generator_panic");
+            acts.push(a);
+            return mk_case(&hdr, acts);
+        }
         acts.push(a);
     }
     if rng.chance(3, 4) {
